@@ -52,6 +52,7 @@ inductive A
   | noMatch           -- udp viaDo: no resolved address of the listener's family (peeked)
   | keyFail           -- udp viaDo: key(to) failed (getnameinfo error), the peer key is empty (only ever logged on failure: peeked) - FC06a
   | dgramNoKey        -- udp readFromListener: recvfrom returned a datagram whose source address key(from) cannot format - FC06a
+  | throw             -- the call threw (tcp doConnect: std::async cannot create the resolver thread, std::system_error) - FC02b
   deriving DecidableEq, Repr
 
 /-- Every call site that can produce a close notification (one constructor per `closeNow(`/`closeCb(` call site of
@@ -60,7 +61,7 @@ inductive Site
   -- shared shape (both engines)
   | drainSession | drainResidual | procClose (o : Origin) | gc
   -- tcp doConnect (session not inserted yet: direct closeCb)
-  | tlsRefused | resolveTimeout | resolveFail | refused | noSocket | sslNewFail | sniFail
+  | tlsRefused | resolveThrow | resolveTimeout | resolveFail | refused | noSocket | sslNewFail | sniFail
   -- tcp doConnect immediate check (inserted: closeNow)
   | immGsoFail | immPeerFail | immSoErr
   -- tcp onSession
